@@ -30,7 +30,8 @@ func init() {
 			"the server's behaviour per received query is an explored environment choice with budgets (answer, withhold, answer later = permuted order, duplicate answer, answer with an unknown id first, unrelated packet first, close the connection, refuse re-dials); " +
 			"every schedule of callers and library goroutines (client reader, connection reader, packet pump, ping, reconnect) with at most P preemptions is executed in virtual time; distinct = scheduler fingerprints; non-trivial = always",
 		Assume: []string{
-			"scheduling points: goroutine spawn/exit, mutex operations, channel operations, select, sleeps/timers, context deadlines, socket reads/writes/closes; data races are not judged by this check (no field-level instrumentation)",
+			"scheduling points: goroutine spawn/exit, mutex operations, channel operations, select, sleeps/timers, context deadlines, socket reads/writes/closes",
+			"data races: every read/write of a struct field reached through a pointer, of a package-level variable, of a map and every use of a *rand.Rand is reported to a vector-clock happens-before detector fed by the shims' synchronisation edges (those of the Go memory model, plus socket write -> read as the runtime does under -race); a pair of conflicting accesses not ordered by them in an explored execution is a violation. Slice elements, local variables captured by closures and whole-struct copies are not tracked",
 			"a write to a socket whose peer has closed fails immediately; bytes are delivered in order",
 			"the reference server derives the session keys from the handshake packet with crypto/ecdh (every execution performs a real handshake)",
 			"goroutine growth is judged by comparing the number of live threads after all calls returned with the number before the first call, in executions without a connection drop",
@@ -311,6 +312,7 @@ func runScenario(c *enum.Ctx, sc scenario) {
 	vsync.ResetChannels()
 	vcrand.Reset(7)
 	s := sched.Start(c, start, 60*time.Second, 60000, os.Getenv("VERIF_TRACE") != "")
+	s.RaceDetect = os.Getenv("C12_NORACE") == ""
 	w := &world{c: c, s: s, sc: sc, key: adnl.NewServerKey(1), answered: map[string]time.Time{}}
 	vnet.Current = &vnet.Net{Accept: w.serve}
 	var results []callResult
@@ -354,6 +356,7 @@ func runScenario(c *enum.Ctx, sc scenario) {
 		}
 		// the main thread waits for the callers (it is a client thread itself)
 		s.Yield("join callers", func() bool { return done == sc.callers })
+		s.AcquireFinished() // the join orders the callers' work before what follows (a WaitGroup in ordinary code)
 		liveAfter = s.LiveExcept("server")
 		if sc.fresh {
 			// after a drop the client must reconnect by itself within a bounded time and serve a fresh request
@@ -398,6 +401,9 @@ func runScenario(c *enum.Ctx, sc scenario) {
 	if s.StepCap {
 		c.Outcome("step-cap")
 		return
+	}
+	if s.Race != nil {
+		c.Fail("data-race:"+s.Race.Key, "data race in this execution: %s", s.Race.Detail)
 	}
 	if setupErr != nil {
 		c.Fail("connect-failed", "NewConnection against the reference server failed: %v", setupErr)
